@@ -5,6 +5,7 @@ import (
 	"fmt"
 	"math/rand"
 	"sort"
+	"strings"
 	"sync"
 	"sync/atomic"
 	"time"
@@ -22,9 +23,11 @@ import (
 // Tier crossings are forced with the package's own EVICTE event for a chosen
 // key (white-box VerifEvict) and awaited through the hand-off hooks H4
 // (enqueued == processed), never by sleeping.
-// Oracle: the sequential map model of C01 over the client history (a hit must
-// be the latest completed Set, nothing after a completed Delete, a miss is
-// always legal but a value seen gone never returns), whichever tier answered;
+// Oracle: a register model over the client history (a hit must be the latest
+// completed Set, nothing after a completed Delete), whichever tier answered. A
+// miss is always legal and, unlike in C01's single-tier model, leaves the
+// state unchanged: with two tiers a spurious miss may be followed by a correct
+// hit of the still-current value, which the property allows;
 // plus, in scripted scenarios under virtual time, no value at or after its
 // deadline. A stale answer is attributed to the secondary tier when the
 // secondary store's log shows a Get returning that value inside the read.
@@ -349,6 +352,9 @@ func c14History(r *Run, idx int) {
 	rng := r.Rng(int64(14500 + idx))
 	cfg := c14Cfg{Kind: []string{"hybrid", "hybrid-loading"}[idx%2], MaxSize: []int64{2, 4, 16}[rng.Intn(3)], Clients: []int{3, 4, 8}[rng.Intn(3)], Ops: 120 + rng.Intn(200),
 		Keys: 3 + rng.Intn(8), Prob: []float32{0, 0.5, 1, 1}[rng.Intn(4)], Workers: []int{1, 2, 8}[rng.Intn(3)], FailPct: []int{0, 0, 10}[rng.Intn(3)], Slow: rng.Intn(4) == 0}
+	if r.Args["healthy"] != "" {
+		cfg.Prob, cfg.FailPct = 1, 0
+	}
 	bar := &secBarrier{}
 	internal.VerifSetHook(bar.hook)
 	defer internal.VerifSetHook(nil)
@@ -433,6 +439,10 @@ func c14History(r *Run, idx int) {
 		wr := rand.New(rand.NewSource(rng.Int63()))
 		<-start
 		for !stop.Load() {
+			if r.Args["nodemoter"] != "" {
+				time.Sleep(200 * time.Microsecond)
+				continue
+			}
 			st.VerifEvict(wr.Intn(cfg.Keys))
 			time.Sleep(time.Duration(5+wr.Intn(40)) * time.Microsecond)
 		}
@@ -471,13 +481,13 @@ func c14History(r *Run, idx int) {
 	}
 	for _, k := range keys {
 		ops := byKey[k]
-		res := checkKey(ops, 30*time.Second)
+		res := checkKeyWith(hybridModel, ops, 30*time.Second)
 		r.Count("key_histories_checked", 1)
 		switch res {
 		case porcupine.Unknown:
 			r.Inconclusive(1)
 		case porcupine.Illegal:
-			core := shrink(ops)
+			core := shrinkWith(hybridModel, ops)
 			key, what := classify(core)
 			// attribute: did the secondary store hand out the stale value inside the offending read?
 			from := "memory-tier"
@@ -491,7 +501,58 @@ func c14History(r *Run, idx int) {
 					}
 				}
 			}
-			r.Violate(key+"/answered-from-"+from, fmt.Sprintf("%s: key %d is not linearizable: %s; core: %v", label, k, what, hopStrings(core)),
+			// The open finding, identified from the secondary store's own log: after the overwrite (or
+			// load) that made the read stale had completed, the secondary store handed the OLDER value to
+			// some Get of this key (this read, or an earlier one that promoted it into memory), and the
+			// newer value had not been written to the secondary store by then - its demotion was dropped,
+			// not admitted, or decided while its entry still counted as clean. Any other stale answer
+			// (the newer value HAD reached the secondary store; nothing was promoted) is a different failure.
+			{
+				explained := false
+				for _, rd := range core {
+					if !rd.isRead() {
+						continue
+					}
+					for _, w := range core {
+						if !w.isWrite() || w.Val == rd.Val {
+							continue
+						}
+						// w's value is established once w returned or a completed read returned it
+						est := w.Ret
+						for _, o := range core {
+							if o.isRead() && o.Val == w.Val && o.Ret < est {
+								est = o.Ret
+							}
+						}
+						if est >= rd.Call {
+							continue
+						}
+						// w is a newer value established before the stale read was invoked
+						for _, g := range seclog {
+							if g.Op != "get" || !g.Found || g.Key != k || g.Val != rd.Val || g.T1 < est || g.T0 > rd.Ret {
+								continue
+							}
+							reached := false
+							for _, c := range seclog {
+								if c.Op == "set" && !c.Err && c.Key == k && c.Val == w.Val && c.T1 < g.T0 {
+									reached = true
+								}
+							}
+							if !reached {
+								explained = true
+							}
+						}
+					}
+				}
+				if explained {
+					key = "stale-read/after-overwrite/older-copy-handed-out-by-secondary-store/newer-value-never-reached-it"
+					from = ""
+				}
+			}
+			if from != "" {
+				key += "/answered-from-" + from
+			}
+			r.Violate(key, fmt.Sprintf("%s: key %d is not linearizable: %s; core: %v", label, k, what, hopStrings(core)),
 				map[string]any{"config": cfg, "key": k, "core": core, "core_text": hopStrings(core)})
 		}
 	}
@@ -527,4 +588,8 @@ func runC14(r *Run) {
 			c14History(r, i)
 		}
 	}
+}
+
+func classifyIsOverwrite(key string) bool {
+	return strings.Contains(key, "-after-overwrite")
 }
